@@ -253,6 +253,13 @@ def negotiable(s):
     return s.kind == 'tls13' or (s.kind == 'tls' and kx_name(s) is not None)
 
 
+#: Suites that have an ietfNames entry and a key-exchange list entry but are in NO MAC class list of the library
+#: (sha/sha256/sha384/md5/aead), so no settings can make any get*Suites wrapper return them: the library cannot
+#: negotiate them and the properties (which quantify over negotiable suites) say nothing about them.  Fixed by
+#: name here, so that a change which makes ANOTHER suite unreachable is still reported.
+NEVER_OFFERED = frozenset(['TLS_DHE_DSS_WITH_AES_128_CBC_SHA256', 'TLS_DHE_DSS_WITH_AES_256_CBC_SHA256'])
+
+
 def defined_in(s, version):
     return tuple(version) in s.versions
 
